@@ -14,13 +14,13 @@ func init() {
 	register(&Property{
 		ID:    "C12",
 		Level: "other",
-		Explanation: "Structural necessary conditions, decided on the SSA of netutil/addrconv.go and sort.go: (R1) both results of IPMask.Size are used and every " +
+		Explanation: "Decided exactly by abstract evaluation into BDDs (no execution): IPToAddr (both families) and IPToAddrNoMapped return the address of the same family and bytes, or an error, in every length scenario (4, 16 mapped / unmapped, 5, 17, 32 bytes, nil). Structural necessary conditions for the other conversions (and as fall-back), decided on the SSA of netutil/addrconv.go and sort.go: (R1) both results of IPMask.Size are used and every " +
 			"successful return of IPNetToPrefix is guarded by a test that excludes bits == 0 (the sentinel for nil / non-contiguous masks), and the ones count is what reaches PrefixFrom; " +
 			"(R2) the slice given to netip.AddrFromSlice derives from the argument only through To4/To16 and its ok result guards success; NoMapped variants delegate; " +
 			"(R3) NetAddrToAddrPort rebuilds the AddrPort only from Addr()/Unmap() and Port() of the same value; (R4) the exact decision table of PreferIPv4/PreferIPv6 over the atoms " +
 			"{a.IsValid, b.IsValid, fam(a), fam(b), sign of a.Compare(b)} is computed as a BDD and compared with the table in the property. " +
 			"Not decided: membership equivalence prefix <=> *net.IPNet, which rests on the semantics of net and netip.",
-		Technique: "SSA dataflow (value provenance, guard dominance) + exact BDD evaluation of the comparator's decision table",
+		Technique: "exact abstract evaluation of go/ssa into ROBDDs (IPToAddr / IPToAddrNoMapped in every length scenario against a model of net/netip; the comparator's decision table) + SSA dataflow (value provenance, guard dominance) for the prefix and AddrPort conversions",
 		Note:      "Trusted: go/ssa, the documented behaviour of net.IPMask.Size (0,0 for non-canonical masks), netip.AddrFromSlice, netip.Addr.Compare being a strict weak order.",
 		DesignRef: "DESIGN.md section 4, C12",
 		Run:       runC12,
